@@ -1,5 +1,6 @@
 """Properties about the two resumable parsers: C01 C02 C03 C04 C05 C06 C07 C08 C09 C17."""
 from . import gen
+from . import extremes
 from .common import Rng, ParseResult, hx, unhex, CRLF, strip_ann
 from .core import Group, Failure, proj_full, proj_class, is_crash
 
@@ -82,6 +83,13 @@ class C01:
             for ds in gen.schedules(rng, s, n_random=2):
                 g.add("cut", gen.req_op(tree, ov, cfg, ds))
             groups.append(g)
+        for j, it in enumerate(extremes.requests(rng, tier)):
+            s, cfg = it["stream"], it["cfg"]
+            g = Group("X%d" % j, "req-delivery-extreme", {"stream": s.hex(), "cfg": list(cfg), "what": it["label"]})
+            g.add("one-piece", gen.req_op(tree, ov, cfg, [s]))
+            for cs in it["cuts"]:
+                g.add("cut", gen.req_op(tree, ov, cfg, gen.cut(s, cs)))
+            groups.append(g)
         # exhaustive segmentations of short streams, limits at the exact element lengths
         shorts = [b"GET / HTTP/1.1\r\n\r\n", b"M * HTTP/1.1\r\nA:b\r\n\r\n", b"G / HTTP/1.1\r\nA: b\r\n c\r\n\r\n",
                   b"P / HTTP/1.1\r\nContent-Length:2\r\n\r\nab"]
@@ -144,6 +152,13 @@ class C02:
             g.add("one-piece", gen.resp_op(tree, ov, hl, [s]))
             for ds in gen.schedules(rng, s, n_random=2):
                 g.add("cut", gen.resp_op(tree, ov, hl, ds))
+            groups.append(g)
+        for j, it in enumerate(extremes.responses(rng, tier)):
+            s, hl = it["stream"], it["hl"]
+            g = Group("X%d" % j, "resp-delivery-extreme", {"stream": s.hex(), "hl": hl, "framing": it["label"]})
+            g.add("one-piece", gen.resp_op(tree, ov, hl, [s]))
+            for cs in it["cuts"]:
+                g.add("cut", gen.resp_op(tree, ov, hl, gen.cut(s, cs)))
             groups.append(g)
         for j, L in enumerate([996, 997, 998, 999, 1000, 1001, 1002, 1003, 1004, 4096, 8190]):
             line = b"X-Long: " + b"v" * (L - 10) + b"\r\n"
@@ -293,6 +308,13 @@ class C03:
                 for ds in gen.schedules(rng, s, n_random=1)[:5]:
                     g.add("cut", gen.req_op(tree, ov, cfg, ds))
             groups.append(g)
+        for j, it in enumerate(extremes.requests(rng, tier)):
+            s, cfg = it["stream"], it["cfg"]
+            g = Group("X%d" % j, "req-accept-extreme", {"stream": s.hex(), "cfg": list(cfg), "what": it["label"]})
+            g.add("whole", gen.req_op(tree, ov, cfg, [s]))
+            for cs in it["cuts"][:3]:
+                g.add("cut", gen.req_op(tree, ov, cfg, gen.cut(s, cs)))
+            groups.append(g)
         # all short strings over a structural alphabet as request lines
         alpha = [b"G", b" ", b"/", b"HTTP/1.1", b"\r", b"\n", b"\xc3", b":", b"*"]
         cfg = (1000, 1000, 10_000_000)
@@ -337,6 +359,13 @@ class C04:
                 for ds in gen.schedules(rng, s, n_random=1)[:5]:
                     g.add("cut", gen.resp_op(tree, ov, hl, ds))
             groups.append(g)
+        for j, it in enumerate(extremes.responses(rng, tier)):
+            s, hl = it["stream"], it["hl"]
+            g = Group("X%d" % j, "resp-accept-extreme", {"stream": s.hex(), "hl": hl, "what": it["label"]})
+            g.add("whole", gen.resp_op(tree, ov, hl, [s]))
+            for cs in it["cuts"][:3]:
+                g.add("cut", gen.resp_op(tree, ov, hl, gen.cut(s, cs)))
+            groups.append(g)
         alpha = [b"HTTP/1.1", b" ", b"2", b"0", b"999", b"1000", b"\r", b"\n", b"\xc3", b"+", b"x"]
         for j, w in enumerate(small_strings(alpha, n_for(tier, 4, 5))):
             s = w + b"\r\n\r\n"
@@ -377,7 +406,11 @@ class C04:
 
 HEX_RE = re.compile(rb"^[0-9A-Fa-f]+$")
 CHUNK_PREFIXES = [b"HTTP/1.1 200 OK\r\nTransfer-Encoding: chunked\r\n\r\n",
-                  b"HTTP/1.1 200 OK\r\nX-A: 1\r\ntransfer-encoding: gzip, Chunked\r\n\r\n"]
+                  b"HTTP/1.1 200 OK\r\nX-A: 1\r\ntransfer-encoding: gzip, Chunked\r\n\r\n",
+                  b"HTTP/1.1 200 OK\r\nTransfer-Encoding: chunked\r\n\r\n",
+                  b"HTTP/1.1 200 OK\r\nTrailer: X-T\r\nTransfer-Encoding: chunked\r\n\r\n",
+                  b"HTTP/1.1 200 OK\r\nTransfer-Encoding: chunked\r\ntrailer: Host, q\r\n\r\n",
+                  b"HTTP/1.1 206 Partial\r\nTrailer: X-Foo\r\nTrailer: t\r\nTransfer-Encoding: chunked\r\n\r\n"]
 
 
 def recognise_chunked(b):
@@ -468,6 +501,10 @@ class C05:
                     fails.append(Failure(group, "chunk-roundtrip", "decoded body differs from the payload", [i]))
                 if r.total != off + meta["enc_len"] or r.fields.get("x", "") != "":
                     fails.append(Failure(group, "chunk-roundtrip", "decoder did not stop exactly at the end of the trailer section", [i]))
+                want = [(unhex(a), unhex(b)) for a, b in meta["trailers"] if unhex(a).lower() not in (b"content-length", b"transfer-encoding", b"trailer")]
+                hs = r.headers()
+                if want and hs[-(len(want) + 1):-1] != want:
+                    fails.append(Failure(group, "chunk-roundtrip", "the trailer fields sent (%d) are not exactly the fields appended to the headers" % len(want), [i]))
             elif r.verdict == "complete":
                 rec = recognise_chunked(stream[off:])
                 if rec[0] != "ok":
@@ -564,6 +601,26 @@ class C08:
                     g.add("crlf-cuts", gen.req_op(tree, ov, cfg, gen.cut(s, gen.crlf_cuts(s))))
                 if rng.chance(1, 4):
                     g.add("bytewise", gen.req_op(tree, ov, cfg, [s[i:i + 1] for i in range(len(s))]))
+                groups.append(g)
+        xs = []
+        for line_len in (1000, 4094, 4095, 4096, 4097, 8191, 8192):
+            xs.append((b"GET /" + b"a" * (line_len - 14) + b" HTTP/1.1\r\nHost: a\r\n\r\n", 0))
+        for zeros in (15, 19, 20, 21, 22, 23, 30):
+            xs.append((b"POST / HTTP/1.1\r\nContent-Length: " + b"0" * zeros + b"13\r\n\r\n0123456789abc", 13))
+        xs.append((b"POST / HTTP/1.1\r\n" + b"".join(b"H%d: v\r\n" % i for i in range(120)) + b"Content-Length: 3\r\n\r\nabc", 3))
+        for xi, (s, d) in enumerate(xs):
+            ms = measure_request(s)
+            T = ms["hdr_end"] + d
+            maxfirst = max(ms["firsts"])
+            meta_base = {"stream": s.hex(), "line": ms["line"], "firsts": ms["firsts"], "conts": ms["conts"], "hdr_end": ms["hdr_end"],
+                         "declared": d, "total": T, "supplied": len(s)}
+            cfgs = [(None, None, None), (1000, 1000, 10_000_000)]
+            for dl in (-1, 0, 1, 2):
+                cfgs += [(ms["line"] + dl, None, None), (None, maxfirst + dl, None), (None, None, T + dl)]
+            for ci, cfg in enumerate(cfgs):
+                g = Group("x%d_%d" % (xi, ci), "req-limits", dict(meta_base, cfg=list(cfg)))
+                g.add("one-piece", gen.req_op(tree, ov, cfg, [s]))
+                g.add("crlf-cuts", gen.req_op(tree, ov, cfg, gen.cut(s, gen.crlf_cuts(s))))
                 groups.append(g)
         # "more input" is never answered once the bytes presented exceed the maximum: unterminated elements
         for k in range(n):
@@ -849,6 +906,8 @@ class C17:
         if pos.startswith("resp-cl"):
             code = pos[7:] or "200"
             return gen.resp_op(tree, ov, None, [b"HTTP/1.1 " + code.encode() + b" OK\r\nContent-Length:" + s + b"\r\n\r\n" + body])
+        if pos == "respclose-cl":
+            return gen.resp_op(tree, ov, None, [b"HTTP/1.1 200 OK\r\nConnection: close\r\nContent-Length:" + s + b"\r\n\r\n" + body])
         if pos == "respte-cl":
             return gen.resp_op(tree, ov, None, [b"HTTP/1.1 200 OK\r\nTransfer-Encoding: chunked\r\nContent-Length:" + s + b"\r\n\r\n" + body])
         if pos == "respte2-cl":
@@ -869,7 +928,7 @@ class C17:
         positions = ["req-cl", "resp-cl", "chunk", "chunk-ext", "status"]
         more_positions = ["resp-cl100", "resp-cl101", "resp-cl199", "resp-cl204", "resp-cl304", "resp-cl404", "resp-cl0", "resp-cl999",
                           "req-cl-GET", "req-cl-HEAD", "req-cl-OPTIONS", "req-cl-CONNECT", "req-cl-TRACE",
-                          "respte-cl", "respte2-cl", "reqte-cl"]
+                          "respte-cl", "respte2-cl", "reqte-cl", "respclose-cl"]
         k = 0
         for w in small_strings(NUM_ALPHA, 2):
             for pos in more_positions:
@@ -890,6 +949,16 @@ class C17:
                 g.add("whole", C17.build(pos, w, tree, ov))
                 groups.append(g)
                 k += 1
+        wide = [b"0" * z + d for z in (14, 15, 16, 17, 19, 20, 21, 22, 30) for d in (b"5", b"+5", b"a", b"+a", b"x")] + \
+               [b"0" * z + b"+" + b"0" * (15 - t) + b"a" * t for z in (1, 2, 5) for t in (1, 2)] + [b"0+00000000000000a", b"00+0000000000000a", b"0+000000000000005"] + \
+               [b"0" * z + b"+" + b"0" * 12 + b"120" for z in (1, 2, 3, 9)] + [b"0" * z + b"120" for z in (13, 14, 15, 20, 29)] + [b"0" * z + b"288" for z in (17, 18, 19, 20, 25)] + \
+               [b"0" * z + b"+" + b"0" * 12 + b"288" for z in (1, 4)]
+        for w in wide:
+            for pos in positions:
+                g = Group("n%d" % k, "numeric-wide", {"pos": pos, "field": w.hex()})
+                g.add("whole", C17.build(pos, w, tree, ov))
+                groups.append(g)
+                k += 1
         for _ in range(n_for(tier, 1500, 40000)):
             pos = rng.pick(positions)
             w = one_non_digit(rng, radix16=pos.startswith("chunk")) if rng.chance(3, 4) else rng.pick(gen.NUMERIC_GOOD + gen.NUMERIC_BAD + gen.NUMERIC_HUGE)
@@ -904,7 +973,7 @@ class C17:
         fails = []
         pos, w = group.meta["pos"], unhex(group.meta["field"])
         r = ParseResult(res[group.tag(0)])
-        if pos.startswith("req-cl") or pos.startswith("resp-cl") or pos in ("respte-cl", "respte2-cl", "reqte-cl"):
+        if pos.startswith("req-cl") or pos.startswith("resp-cl") or pos in ("respte-cl", "respte2-cl", "reqte-cl", "respclose-cl"):
             if b"\r" in w or b"\n" in w:
                 return fails        # the field then is not one header value
             field = w.strip(b" \t")
@@ -1026,7 +1095,16 @@ class C06:
                     if i < len(base):
                         add("multibyte-replace", mk(base[:i] + mb + base[i + 1:]))
         # long lines: a multi-byte character straddling every byte offset up to 300 (error texts, excerpts, limits)
-        for p in range(1, n_for(tier, 300, 1100)):
+        for it in extremes.requests(rng, tier):
+            add("req-extreme", gen.req_op(tree, ov, it["cfg"], [it["stream"]]), {"what": it["label"]})
+        for it in extremes.responses(rng, tier):
+            add("resp-extreme", gen.resp_op(tree, ov, it["hl"], [it["stream"]]), {"what": it["label"]})
+        for label, kind, s in extremes.floods(rng, tier):
+            g = Group("z%d" % k, "flood", {"what": label})
+            g.add("op", gen.req_op(tree, ov, (None, None, None), [s]) if kind == "req" else gen.resp_op(tree, ov, None, [s]), {"nocmp": True})
+            groups.append(g)
+            k += 1
+        for p in list(range(1, n_for(tier, 300, 1100))) + list(range(985, 1015)) + list(range(4088, 4102)) + [8190, 8191, 8192, 8193, 65535, 65536]:
             for mb in ("\u20ac".encode(), "\U0001F600".encode()):
                 filler = b"a" * (p - 1) + mb + b"a" * 8
                 add("multibyte-long", gen.resp_op(tree, ov, None, [filler + b"\r\n\r\n"]))                       # no protocol delimiter
@@ -1141,6 +1219,22 @@ class C07:
                     g.add("bytewise", gen.resp_op(tree, ov, None, [s[i:i + 1] for i in range(len(s))]))
                 groups.append(g)
                 k += 1
+        for it in extremes.alloc_cases(rng, tier):
+            s = it["stream"]
+            g = Group("m%d" % k, "chunk-declared-bulk", {"declared": it["declared"], "max": None, "what": it["label"]})
+            g.add("one-piece", gen.resp_op(tree, ov, None, [s]))
+            head = s.index(b"\r\n\r\n") + 4
+            g.add("after-head", gen.resp_op(tree, ov, None, [s[:head], s[head:]]))
+            groups.append(g)
+            k += 1
+        for it in extremes.requests(rng, tier):
+            if not it["label"].startswith("Expect"):
+                continue
+            g = Group("m%d" % k, "req-expect", {"declared": it["label"], "max": it["cfg"][2]})
+            g.add("one-piece", gen.req_op(tree, ov, it["cfg"], [it["stream"]]))
+            g.add("cut", gen.req_op(tree, ov, it["cfg"], gen.cut(it["stream"], gen.crlf_cuts(it["stream"]))))
+            groups.append(g)
+            k += 1
         for d in declared:
             for te in (b"chunked", b"gzip, Chunked"):
                 s = b"HTTP/1.1 200 OK\r\nTransfer-Encoding: " + te + b"\r\nContent-Length: %d\r\n\r\n" % d + rng.pick([b"", b"2\r\nab\r\n", b"ab"])
